@@ -214,12 +214,15 @@ def process_multipart(entity):
             break
 
     # Read all parts
-    while True:
-        part = entity.part_class.from_fp(entity.fp, ib)
-        entity.parts.append(part)
-        part.process()
-        if part.fp.done:
-            break
+    msg = 'Malformed multipart body'
+    with cherrypy.HTTPError.handle((ValueError, EOFError), 400, msg):
+        # truncated body, header line without CRLF or colon, ...
+        while True:
+            part = entity.part_class.from_fp(entity.fp, ib)
+            entity.parts.append(part)
+            part.process()
+            if part.fp.done:
+                break
 
 
 def process_multipart_form_data(entity):
@@ -651,6 +654,7 @@ class Part(Entity):
     def read_headers(cls, fp):
         """Read HTTP headers from a file handle."""
         headers = httputil.HeaderMap()
+        k = None
         while True:
             line = fp.readline()
             if not line:
@@ -665,6 +669,8 @@ class Part(Entity):
 
             if line[0] in b' \t':
                 # It's a continuation line.
+                if k is None:
+                    raise ValueError('Illegal continuation line: %r' % line)
                 v = line.strip().decode('ISO-8859-1')
             else:
                 k, v = line.split(b':', 1)
